@@ -1,10 +1,18 @@
 (* C02 — Apply touches only what the applier specifies or abandons.  Statements only.
-   The general frame theorem is not proved yet (it needs the merge/removal frame lemmas
-   under construction).  Proved here: the commutation corollary on a concrete pair of
-   fresh managers with disjoint configurations (kernel-evaluated scenario), and the fact
-   that pruning is the identity when the applier has no earlier record (C03 file).  The
-   property itself is decided on the implementation's outcomes by the extracted checkers
-   (frame, others-keep; DESIGN.md 4.C02). *)
+   GENERAL THEOREM for the removal half (C02_apply_removes_only_its_own, proofs in
+   Proofs/ApplyPrune.v ...), in the setting and with the side conditions of
+   C01_apply_takes_effect: a node present in the live object and absent from the result of
+   a successful apply, not at or beneath a node of the configuration, lies at or beneath a
+   member of the EnsureNamedFieldsAreMembers closure of the APPLIER'S OWN previous record --
+   an apply removes nothing else, in particular nothing when the applier has no record.
+   Needed: live object and configuration have the same kind at the root
+   (C02_needs_the_same_root_kind refutes the statement for a root type that is both a
+   list and a map).  The "merged form" starts from the merged object and needs no such
+   hypothesis.  With C01 (every node of the configuration is in the result with the
+   configuration's value) and C12_nothing_else_changes (every leaf of the merged object is
+   the configuration's or the live object's) this gives the frame.  Not proved: the
+   commutation corollary in general (scenario below).  The property itself is also decided
+   on the implementation's outcomes by the extracted checkers (DESIGN.md 4.C02). *)
 From Coq Require Import List ZArith String Bool.
 From SMD Require Import Model.Value Model.Order Model.PathElem Model.PathSet Model.Schema
   Model.Updater Spec.Resolve Spec.Agree Spec.Examples.
@@ -44,3 +52,123 @@ Theorem C02_commute_scenario :
   end.
 Proof. vm_compute. split; reflexivity. Qed.
 Print Assumptions C02_commute_scenario.
+
+(* ---- the general theorem (removal half) ---- *)
+From Coq Require Import Arith Lia.
+From SMD Require Import Model.Order Model.PathElem Model.Schema Model.Walk Model.Validate Model.FieldSet Model.Remove Model.Merge Model.Compare
+  Model.Matcher Model.Reconcile Spec.PathsAsSets Spec.RefValid Spec.Resolve Spec.Agree Spec.Examples
+  Proofs.OrderLaws Proofs.PathSetLaws Proofs.SchemaOk Proofs.FieldSetBase Proofs.FieldSetPaths
+  Proofs.FieldSetWf Proofs.FieldSetLaws Proofs.RemoveAbsent Proofs.RemoveWf Proofs.ResolveLaws
+  Proofs.UpdaterLaws Proofs.UpdaterLaws2 Proofs.MergeLaws Proofs.MergeAgree
+  Proofs.RemoveFrame Proofs.EnLaws Proofs.NodeSet Proofs.KeyFields Proofs.VeqbResolve
+  Proofs.SetCheckers Proofs.ApplyEffect
+  Proofs.RemoveMono Proofs.TreeFacts Proofs.MergeKeeps Proofs.PruneShape Proofs.ApplyPruneBase Proofs.ApplyPrune.
+Theorem C02_apply_removes_only_its_own :
+  forall (c : config) (R : typeref -> Prop) (ver : string) (live cfg : string * value)
+           (mf : managed) (mgr : string) (force : bool) (o : option tv) 
+           (mf' : managed) (p : path),
+         no_ignore c ->
+         conv_id c ->
+         schema_ok (schema_of c ver) R ->
+         family_refs (schema_of c ver) R ->
+         R (tr_of c ver) ->
+         keys_plain (schema_of c ver) R ->
+         fst live = ver ->
+         fst cfg = ver ->
+         single_version ver mf ->
+         mf_ok mf ->
+         records_current c ver mf ->
+         (forall r : mrec,
+          mf_get mgr mf = Some r -> applier_record_ok (schema_of c ver) (tr_of c ver) (mr_set r)) ->
+         (forall (m : string) (r : mrec),
+          m <> mgr ->
+          mf_get m mf = Some r ->
+          owns_live_keys (schema_of c ver) (tr_of c ver) (snd live) (mr_set r)) ->
+         wf_value (snd live) = true ->
+         wf_value (snd cfg) = true ->
+         conforms (schema_of c ver) (tr_of c ver) true (snd live) = true ->
+         conforms (schema_of c ver) (tr_of c ver) false (snd cfg) = true ->
+         plain (snd cfg) = true ->
+         granular (schema_of c ver) (tr_of c ver) (snd cfg) ->
+         apply_op c live cfg ver mf mgr force = UOk (o, mf') ->
+         wf_path p = true ->
+         p <> nil ->
+         present (schema_of c ver) (tr_of c ver) (snd live) p = true ->
+         present (schema_of c ver) (tr_of c ver)
+           match o with
+           | Some t => snd t
+           | None => snd live
+           end p = false ->
+         (forall q : path,
+          In q (map fst (nodes (schema_of c ver) (tr_of c ver) (snd cfg))) ->
+          is_prefix q p = false) ->
+         same_root_kind (schema_of c ver) (tr_of c ver) (snd live) (snd cfg) ->
+         exists (last : mrec) (q : path),
+           mf_get mgr mf = Some last /\
+           is_prefix q p = true /\
+           ps_has q (ps_en (schema_of c ver) (tr_of c ver) (mr_set last)) = true.
+Proof. exact apply_removes_only_own. Qed.
+Print Assumptions C02_apply_removes_only_its_own.
+
+Theorem C02_apply_removes_only_its_own_merged_form :
+  forall (c : config) (R : typeref -> Prop) (ver : string) (live cfg : string * value)
+           (mf : managed) (mgr : string) (force : bool) (o : option tv) 
+           (mf' : managed) (p : path),
+         no_ignore c ->
+         conv_id c ->
+         schema_ok (schema_of c ver) R ->
+         family_refs (schema_of c ver) R ->
+         R (tr_of c ver) ->
+         keys_plain (schema_of c ver) R ->
+         fst live = ver ->
+         fst cfg = ver ->
+         single_version ver mf ->
+         mf_ok mf ->
+         records_current c ver mf ->
+         (forall r : mrec,
+          mf_get mgr mf = Some r -> applier_record_ok (schema_of c ver) (tr_of c ver) (mr_set r)) ->
+         (forall (m : string) (r : mrec),
+          m <> mgr ->
+          mf_get m mf = Some r ->
+          owns_live_keys (schema_of c ver) (tr_of c ver) (snd live) (mr_set r)) ->
+         wf_value (snd live) = true ->
+         wf_value (snd cfg) = true ->
+         conforms (schema_of c ver) (tr_of c ver) true (snd live) = true ->
+         conforms (schema_of c ver) (tr_of c ver) false (snd cfg) = true ->
+         plain (snd cfg) = true ->
+         apply_op c live cfg ver mf mgr force = UOk (o, mf') ->
+         wf_path p = true ->
+         p <> nil ->
+         (forall M : value,
+          merge (schema_of c ver) (tr_of c ver) (snd live) (snd cfg) = Some (Some M) ->
+          present (schema_of c ver) (tr_of c ver) M p = true) ->
+         present (schema_of c ver) (tr_of c ver)
+           match o with
+           | Some t => snd t
+           | None => snd live
+           end p = false ->
+         exists (last : mrec) (q : path),
+           mf_get mgr mf = Some last /\
+           is_prefix q p = true /\
+           ps_has q (ps_en (schema_of c ver) (tr_of c ver) (mr_set last)) = true.
+Proof. exact apply_removes_only_own_merged. Qed.
+Print Assumptions C02_apply_removes_only_its_own_merged_form.
+
+Theorem C02_needs_the_same_root_kind :
+  ~ apply_removes_only_own_original.
+Proof. exact apply_removes_only_own_needs_root_kind. Qed.
+Print Assumptions C02_needs_the_same_root_kind.
+
+Theorem C02_example :
+  present ex_schema ex_rt ape_live
+           (PEField "items" :: PEKey (("name", VStr "x") :: nil) :: PEField "vv" :: nil) = true /\
+         present ex_schema ex_rt ape_result
+           (PEField "items" :: PEKey (("name", VStr "x") :: nil) :: PEField "vv" :: nil) = false /\
+         (exists (last : mrec) (q : path),
+            mf_get "a" ape_mf = Some last /\
+            is_prefix q
+              (PEField "items" :: PEKey (("name", VStr "x") :: nil) :: PEField "vv" :: nil) =
+            true /\ ps_has q (ps_en ex_schema ex_rt (mr_set last)) = true).
+Proof. exact apply_removes_only_own_example. Qed.
+Print Assumptions C02_example.
+
